@@ -175,7 +175,7 @@ theorem isInfix_nil (s : Str) : isInfix [] s = true := by
 /-- **T1**: at a refinement level whose keys (no chunk suffix) carry the
 iterations of an arithmetic progression with at least two terms, in any
 order, the summary line is `(min, max, stride)` of that progression. -/
-theorem scan_level_faithful_lemma (fkeys : List (Str × KeyInfo)) (rl a d n : Nat)
+theorem scan_level_faithful_lemma0 (fkeys : List (Str × KeyInfo)) (rl a d n : Nat)
     (hrl : ∀ k ∈ fkeys, k.2.rl = some rl) (hc : ∀ k ∈ fkeys, k.2.c = none)
     (hperm : (fkeys.map fun k => k.2.it).Perm (apList a d (n + 2))) :
     levelOne fkeys rl = .ok (some (.arange rl a (a + (n + 1) * d) d)) := by
@@ -200,7 +200,7 @@ theorem scan_level_faithful_lemma (fkeys : List (Str × KeyInfo)) (rl a d n : Na
     omega
 
 /-- a level with a single iteration is reported as that iteration -/
-theorem scan_level_single_lemma (fkeys : List (Str × KeyInfo)) (rl x : Nat)
+theorem scan_level_single_lemma0 (fkeys : List (Str × KeyInfo)) (rl x : Nat)
     (hrl : ∀ k ∈ fkeys, k.2.rl = some rl) (hc : ∀ k ∈ fkeys, k.2.c = none)
     (hits : (fkeys.map fun k => k.2.it) = [x]) :
     levelOne fkeys rl = .ok (some (.single rl x)) := by
@@ -216,6 +216,98 @@ theorem scan_level_single_lemma (fkeys : List (Str × KeyInfo)) (rl x : Nat)
     unfold levelOne
     simp only [hfil, hc0, hfil2, hits]
     rfl
+
+/-- only the keys whose PARSED refinement level equals `rl` matter -/
+theorem levelOne_filter (fkeys : List (Str × KeyInfo)) (rl : Nat) :
+    levelOne fkeys rl = levelOne (fkeys.filter fun k => k.2.rl == some rl) rl := by
+  unfold levelOne
+  simp only [List.filter_filter, Bool.and_self]
+
+/-- the keys of a file (all levels mixed) whose parsed `rl` field equals `rl` -/
+def keysAt (fkeys : List (Str × KeyInfo)) (rl : Nat) : List (Str × KeyInfo) :=
+  fkeys.filter fun k => k.2.rl == some rl
+
+theorem keysAt_rl (fkeys : List (Str × KeyInfo)) (rl : Nat) : ∀ k ∈ keysAt fkeys rl, k.2.rl = some rl := by
+  intro k hk
+  have := (List.mem_filter.mp hk).2
+  simpa using this
+
+theorem scan_level_faithful_lemma (fkeys : List (Str × KeyInfo)) (rl a d n : Nat)
+    (hc : ∀ k ∈ keysAt fkeys rl, k.2.c = none)
+    (hperm : ((keysAt fkeys rl).map fun k => k.2.it).Perm (apList a d (n + 2))) :
+    levelOne fkeys rl = .ok (some (.arange rl a (a + (n + 1) * d) d)) := by
+  rw [levelOne_filter]
+  exact scan_level_faithful_lemma0 _ rl a d n (keysAt_rl fkeys rl) hc hperm
+
+theorem scan_level_single_lemma (fkeys : List (Str × KeyInfo)) (rl x : Nat)
+    (hc : ∀ k ∈ keysAt fkeys rl, k.2.c = none)
+    (hits : ((keysAt fkeys rl).map fun k => k.2.it) = [x]) :
+    levelOne fkeys rl = .ok (some (.single rl x)) := by
+  rw [levelOne_filter]
+  exact scan_level_single_lemma0 _ rl x (keysAt_rl fkeys rl) hc hits
+
+/-! ## restart discovery: exactly the entries matching `^output-(\d+)$` -/
+
+theorem dropLit_some {lit s r : Str} (h : dropLit lit s = some r) : s = lit ++ r := by
+  unfold dropLit at h
+  split at h
+  · rename_i hp
+    injection h with h
+    obtain ⟨t, ht⟩ := List.isPrefixOf_iff_prefix.mp hp
+    subst ht
+    simp at h
+    rw [h]
+  · simp at h
+
+theorem mem_takeWhile_true {p : Char → Bool} {x : Char} : ∀ {l : Str}, x ∈ l.takeWhile p → p x = true := by
+  intro l
+  induction l with
+  | nil => simp
+  | cons a l ih =>
+    intro h
+    simp only [List.takeWhile] at h
+    split at h
+    · rename_i hp
+      rcases List.mem_cons.mp h with h | h
+      · subst h; exact hp
+      · exact ih h
+    · simp at h
+
+theorem matchOutput_shape {e : Str} {r : Nat} (h : matchOutput e = some r) :
+    ∃ d : Str, d ≠ [] ∧ (∀ c ∈ d, isDig c = true) ∧ (e = sOutput ++ d ∨ e = sOutput ++ d ++ ['\n']) := by
+  unfold matchOutput at h
+  cases hd : dropLit sOutput e with
+  | none => simp [hd] at h
+  | some t =>
+    simp only [hd] at h
+    have he := dropLit_some hd
+    split at h
+    · rename_i hc
+      simp only [Bool.and_eq_true, Bool.not_eq_true', Bool.or_eq_true, beq_iff_eq] at hc
+      refine ⟨t.takeWhile isDig, ?_, fun c hc' => mem_takeWhile_true hc', ?_⟩
+      · intro hnil; rw [hnil] at hc; simp at hc
+      · have hsplit : t = t.takeWhile isDig ++ t.dropWhile isDig := (List.takeWhile_append_dropWhile).symm
+        rcases hc.2 with h2 | h2
+        · left
+          rw [h2, List.append_nil] at hsplit
+          rw [he]; congr 1
+        · right
+          rw [h2] at hsplit
+          rw [he, List.append_assoc]; congr 1
+    · simp at h
+
+theorem matchOutput_digits (d : Str) (hne : d ≠ []) (hd : ∀ c ∈ d, isDig c = true) :
+    matchOutput (sOutput ++ d) = digitsVal d := by
+  have h1 : dropLit sOutput (sOutput ++ d) = some d := by simp [dropLit, isPrefixOf_append_self]
+  have h2 := takeWhile_all hd
+  have hdash : '-' ∉ d := fun h => by have := hd _ h; revert this; decide
+  have h3 : split ['-'] (sOutput ++ d) = [['o', 'u', 't', 'p', 'u', 't'], d] := by
+    have : sOutput ++ d = ['o', 'u', 't', 'p', 'u', 't'] ++ '-' :: d := by simp [sOutput]
+    rw [this, split1_first _ (by decide), split1_none hdash]
+  have hemp : d.isEmpty = false := by cases d <;> simp_all
+  unfold matchOutput
+  simp only [h1, h2.1, h2.2, hemp, h3, pyInt_digits hne hd]
+  cases digitsVal d <;> simp
 
 /-! ## T6: overall merge -/
 
